@@ -21,6 +21,8 @@ AST nodes are nested tuples (JSON lists in replay files).  A *domain* is
     ("einsum", eqn, xs)
     ("fstack", dim, xs) / ("fcat", axis, xs)
     ("align", names, x)
+    ("const", ((name, size | ("real", shape)), ...), x)   Constant: x, declared constant in further inputs
+    ("delta", ((name, point, log_density), ...))           Delta: log_density where every name equals its point, else -inf
     ("integrate", log_measure, integrand, ((name,size),...))
     ("approx", op, model, guide, ((name,size),...))
 
@@ -337,6 +339,27 @@ def _typeof(node):
         return _merge(*[t[0] for t in ts]), (ts[0][1][0], tuple(shape))
     if k == "align":
         return typeof(node[2])
+    if k == "delta":
+        res, names = {}, {}
+        for name, point, ld in node[1]:
+            pi, po = typeof(point)
+            li, lo = typeof(ld)
+            if lo != ("real", ()) or name in names:
+                raise HarnessError("delta term")
+            names[name] = po
+            res = _merge(res, pi, li)
+        if set(names) & set(res) or not names:
+            raise HarnessError("delta name among the inputs of its points")
+        res = dict(res)
+        res.update(names)
+        return res, ("real", ())
+    if k == "const":
+        inp, out = typeof(node[2])
+        res = {n: _vdom(s_) for n, s_ in node[1]}
+        if set(res) & set(inp) or len(res) != len(node[1]) or not res:
+            raise HarnessError("const inputs must be new names")
+        res.update(inp)
+        return res, out
     if k == "integrate":
         _, lm, ig, vs = node
         li, lo = typeof(lm)
@@ -443,6 +466,36 @@ def _check_domain_bin(op, a, b):
                 raise OutOfDomain(op + " of infinities")
 
 
+def _is_zero(node):
+    return (node[0] == "num" and node[1] == 0) or (node[0] == "ten" and all(v == 0 for v in node[4]))
+
+
+def check_int_deltas(body, names):
+    """Reductions over integer names on which the body carries a Delta: decided only for unit-mass addends."""
+    found = [t for d in walk(body) if d[0] == "delta" for t in d[1] if t[0] in names]
+    if not found:
+        return
+    add = [t for t in additive_deltas(body) if t[0] in names]
+    if len(add) != len(found) or len({t[0] for t in found}) != len(found):
+        raise Undecided("Delta on a reduced variable is not an addend of the body")
+    if not all(_is_zero(t[2]) for t in add):
+        raise Undecided("non-unit Delta under a reduction")
+
+
+def additive_deltas(body):
+    """Delta terms that are addends of `body` (through add, the left side of sub, align and Constant wrappers)."""
+    k = body[0]
+    if k == "delta":
+        return list(body[1])
+    if k == "bin" and body[1] == "add":
+        return additive_deltas(body[2]) + additive_deltas(body[3])
+    if k == "bin" and body[1] == "sub":
+        return additive_deltas(body[2])
+    if k in ("align", "const"):
+        return additive_deltas(body[2])
+    return []
+
+
 class Oracle:
     """Point-wise evaluator with memoisation on (node, env restricted to its free names)."""
 
@@ -508,6 +561,8 @@ class Oracle:
                 if np.isinf(a).any() or np.isinf(b).any():
                     raise OutOfDomain("matmul of infinities (order-dependent)")
                 return np.matmul(a, b)
+            if node[1] == "sub" and any(d[0] == "delta" for d in walk(node[3])):
+                raise OutOfDomain("subtracting a point mass")
             _check_domain_bin(node[1], a, b)
             return np.asarray(NP_BINARY[node[1]](a, b))
         if k == "getitem":
@@ -521,6 +576,7 @@ class Oracle:
         if k == "red":
             op = node[1]
             vs = node[3]
+            check_int_deltas(node[2], {n for n, s_ in vs})
             vals = []
             for idx in itertools.product(*[range(s) for n, s in vs]):
                 e2 = dict(env)
@@ -596,13 +652,29 @@ class Oracle:
             return np.concatenate(vals, axis=node[1])
         if k == "align":
             return ev(node[2], env)
+        if k == "const":
+            return ev(node[2], env)
+        if k == "delta":
+            total = 0.0
+            for name, point, ld in node[1]:
+                p = np.asarray(ev(point, env))
+                q = np.asarray(env[name])
+                l = float(ev(ld, env))
+                if p.shape != q.shape or not np.array_equal(p.astype(float), q.astype(float)):
+                    return np.asarray(-np.inf)
+                total += l
+            return np.asarray(total)
         if k == "integrate":
             _, lm, ig, vs = node
+            check_int_deltas(lm, {n for n, s_ in vs})
+            if any(d[0] == "delta" and any(t[0] in {n for n, s_ in vs} for t in d[1]) for d in walk(ig)):
+                raise Undecided("Delta on an integrated variable inside the integrand")
             total = None
             for idx in itertools.product(*[range(s) for n, s in vs]):
                 e2 = dict(env)
                 e2.update({n: i for (n, s), i in zip(vs, idx)})
-                v = np.exp(ev(lm, e2)) * ev(ig, e2)
+                m = np.exp(np.asarray(ev(lm, e2), dtype=float))
+                v = np.where(m == 0, 0.0, m * np.where(m == 0, 0.0, np.asarray(ev(ig, e2), dtype=float)))
                 total = v if total is None else total + v
             return np.asarray(total)
         if k == "approx":
@@ -665,16 +737,47 @@ class Oracle:
             raise Undecided("integrand is not quadratic in the reduced real variables")
         return P, eta, f0
 
+    def _plug_deltas(self, bodies, reals, e2):
+        """Point masses on reduced real variables: when `bodies[0]` is a sum one of whose addends is a Delta on a reduced
+        name, integrating that name out evaluates everything at the Delta's point (the Delta contributes its
+        log_density there).  Returns the reduced variables that remain, with e2 updated; Undecided where a Delta on a
+        reduced name is not an addend of the body."""
+        names = {n for n, sh in reals}
+        add = additive_deltas(bodies[0])
+        everywhere = [t for b in bodies for d in walk(b) if d[0] == "delta" for t in d[1] if t[0] in names]
+        if not everywhere:
+            return reals
+        for b in bodies[1:]:
+            if any(d[0] == "delta" and any(t[0] in names for t in d[1]) for d in walk(b)):
+                raise Undecided("Delta on an integrated variable inside the integrand")
+        if len(everywhere) != sum(1 for t in add if t[0] in names) or len({t[0] for t in everywhere}) != len(everywhere):
+            raise Undecided("Delta on a reduced variable is not an addend of the body")
+        for name, point, ld in add:
+            if name in names:
+                if not _is_zero(ld):
+                    # funsor discards the log_density of a Delta term that is integrated out by reduce() but keeps it
+                    # in Integrate(); the listed properties speak about unit-mass point masses only
+                    raise Undecided("non-unit Delta under a reduction")
+                if names & set(typeof(point)[0]):
+                    raise Undecided("Delta point depends on a reduced variable")
+                e2[name] = np.asarray(self.ev(point, e2), dtype=float)
+        return [(n, sh) for n, sh in reals if n not in {t[0] for t in add}]
+
     def _red_real(self, node, env):
         op, body, vs = node[1], node[2], node[3]
         if op != "logaddexp":
             raise Undecided(f"reduce_{op} over a real variable has no closed form")
         ints = [(n, s_) for n, s_ in vs if not isinstance(s_, (tuple, list))]
-        reals = [(n, tuple(s_[1])) for n, s_ in vs if isinstance(s_, (tuple, list))]
+        reals0 = [(n, tuple(s_[1])) for n, s_ in vs if isinstance(s_, (tuple, list))]
+        check_int_deltas(body, {n for n, s_ in ints})
         vals = []
         for idx in itertools.product(*[range(s_) for n, s_ in ints]):
             e2 = dict(env)
             e2.update({n: i for (n, s_), i in zip(ints, idx)})
+            reals = self._plug_deltas([body], reals0, e2)
+            if not reals:
+                vals.append(np.asarray(self.ev(body, e2)))
+                continue
 
             def fn(parts, e2=e2):
                 e3 = dict(e2)
@@ -695,11 +798,17 @@ class Oracle:
     def _integrate_real(self, node, env):
         _, lm, ig, vs = node
         ints = [(n, s_) for n, s_ in vs if not isinstance(s_, (tuple, list))]
-        reals = [(n, tuple(s_[1])) for n, s_ in vs if isinstance(s_, (tuple, list))]
+        reals0 = [(n, tuple(s_[1])) for n, s_ in vs if isinstance(s_, (tuple, list))]
+        check_int_deltas(lm, {n for n, s_ in ints})
         total = None
         for idx in itertools.product(*[range(s_) for n, s_ in ints]):
             e2 = dict(env)
             e2.update({n: i for (n, s_), i in zip(ints, idx)})
+            reals = self._plug_deltas([lm, ig], reals0, e2)
+            if not reals:
+                v = np.exp(np.asarray(self.ev(lm, e2), dtype=float)) * np.asarray(self.ev(ig, e2), dtype=float)
+                total = v if total is None else total + v
+                continue
 
             def mk(body, e2=e2):
                 def fn(parts):
@@ -770,6 +879,50 @@ def real_points(inputs, k, salt=0, nonneg=False):
     return pts
 
 
+def delta_hit_points(node, inputs, ip, limit=3):
+    """Extra assignments of the real inputs at which the point masses inside `node` are hit: every Delta point (and, for an
+    Independent over a Delta, the stacked points) that has the shape of a free real input is offered as a value of it."""
+    reals = {n: d for n, d in inputs.items() if d[0] == "real"}
+    if not reals or not any(d[0] == "delta" for d in walk(node)):
+        return []
+    orc = Oracle()
+    cands = {n: [] for n in reals}
+
+    def offer(v):
+        v = np.asarray(v, dtype=float)
+        for n, d in reals.items():
+            if tuple(d[1]) == v.shape and not any(np.array_equal(v, w) for w in cands[n]):
+                cands[n].append(v)
+
+    for d in walk(node):
+        try:
+            if d[0] == "delta":
+                for name, point, ld in d[1]:
+                    if typeof(point)[1][0] == "real" and set(typeof(point)[0]) <= set(ip):
+                        offer(orc.ev(point, ip))
+            elif d[0] == "indep":
+                _, x, rv, bv, dv = d
+                size = typeof(x)[0][bv][0]
+                for dd in walk(x):
+                    if dd[0] == "delta":
+                        for name, point, ld in dd[1]:
+                            if name == dv and set(typeof(point)[0]) <= set(ip) | {bv}:
+                                offer(np.stack([np.asarray(orc.ev(point, dict(ip, **{bv: i})), dtype=float) for i in range(size)]))
+        except (HarnessError, OutOfDomain, Undecided, NotNormalizable, KeyError):
+            continue
+    if not any(cands.values()):
+        return []
+    out = []
+    base = real_points(inputs, 1)[0]
+    for k in range(limit):
+        pt = {}
+        for n in reals:
+            pt[n] = cands[n][k % len(cands[n])] if cands[n] and k < max(len(c) for c in cands.values()) else base[n]
+        if not any(all(np.array_equal(pt[n], q[n]) for n in reals) for q in out):
+            out.append(pt)
+    return out
+
+
 def close(a, b):
     """The comparison stated in DESIGN.md 2.2."""
     a = np.asarray(a)
@@ -835,6 +988,10 @@ def show(node, depth=0):
         return f"{k}[{node[1]}](" + ", ".join(show(p) for p in node[2]) + ")"
     if k == "align":
         return f"align{list(node[1])}({show(node[2])})"
+    if k == "delta":
+        return "Delta(" + "; ".join(f"{n}={show(pt)} @ {show(ld)}" for n, pt, ld in node[1]) + ")"
+    if k == "const":
+        return f"Constant[{','.join(f'{n}:{s_}' for n, s_ in node[1])}]({show(node[2])})"
     if k == "integrate":
         return f"Integrate[{','.join(n for n, s in node[3])}]({show(node[1])}, {show(node[2])})"
     if k == "approx":
@@ -865,11 +1022,14 @@ def walk(node):
                     yield from walk(cc)
                 elif isinstance(cc, tuple) and len(cc) == 2 and isinstance(cc[1], tuple) and cc[1] and cc[1][0] in KINDS:
                     yield from walk(cc[1])
+                elif isinstance(cc, tuple) and len(cc) == 3 and k == "delta":
+                    yield from walk(cc[1])
+                    yield from walk(cc[2])
 
 
 KINDS = {
     "num", "ten", "var", "un", "unp", "bin", "getitem", "red", "sub", "stack", "cat", "slice",
-    "lam", "indep", "einsum", "fstack", "fcat", "align", "integrate", "approx", "gauss",
+    "lam", "indep", "einsum", "fstack", "fcat", "align", "integrate", "approx", "gauss", "const", "delta",
 }
 
 
@@ -896,6 +1056,9 @@ def positions(node, path=()):
                     yield from positions(cc, path + (i, j))
                 elif isinstance(cc, tuple) and len(cc) == 2 and _is_node(cc[1]):
                     yield from positions(cc[1], path + (i, j, 1))
+                elif isinstance(cc, tuple) and len(cc) == 3 and node[0] == "delta":
+                    yield from positions(cc[1], path + (i, j, 1))
+                    yield from positions(cc[2], path + (i, j, 2))
 
 
 def replace_at(node, path, new):
@@ -931,7 +1094,7 @@ def is_bool_data(node):
         return node[1] == "invert" and is_bool_data(node[2])
     if k == "red":
         return node[1] in ("and", "or") and is_bool_data(node[2])
-    if k in ("sub", "align"):
+    if k in ("sub", "align", "const"):
         return is_bool_data(node[1] if k == "sub" else node[2])
     if k == "stack":
         return all(is_bool_data(p) for p in node[2])
@@ -1050,6 +1213,10 @@ def rename_free(node, old, new):
         return (k, node[1], tuple(R(x) for x in node[2]))
     if k == "align":
         return ("align", tuple(new if n == old else n for n in node[1]), R(node[2]))
+    if k == "const":
+        return ("const", tuple((new if n == old else n, s_) for n, s_ in node[1]), R(node[2]))
+    if k == "delta":
+        return ("delta", tuple((new if n == old else n, R(pt), R(ld)) for n, pt, ld in node[1]))
     if k == "integrate":
         if any(n == old for n, s in node[3]):
             return node
@@ -1130,6 +1297,10 @@ def rename_binders(node, counter=None):
         return (k, node[1], tuple(A(x) for x in node[2]))
     if k == "align":
         return ("align", node[1], A(node[2]))
+    if k == "const":
+        return ("const", node[1], A(node[2]))
+    if k == "delta":
+        return ("delta", tuple((n, A(pt), A(ld)) for n, pt, ld in node[1]))
     if k == "integrate":
         lm, ig = A(node[1]), A(node[2])
         vs = []
@@ -1171,4 +1342,8 @@ def leaf_names(node):
             out |= {x for x, s in n[1]}
         elif n[0] in ("var", "slice"):
             out.add(n[1])
+        elif n[0] == "const":
+            out |= {x for x, s in n[1]}
+        elif n[0] == "delta":
+            out |= {x for x, pt, ld in n[1]}
     return out
